@@ -628,7 +628,7 @@ func init() {
 		Technique: "history checking of the bundled loaders against small executable models (map keyed by cleaned path; the file tree itself; first-holder for multi)",
 		Rule: "each case is one random history on one loader: in-memory (Set/Delete/Exists/Open with spellings using ./ ../ // leading and trailing slashes that normalise to 4 canonical paths), OS and http file-system loaders over a freshly created directory tree " +
 			"(every file, every directory, missing entries and the root are queried after every edit: write, overwrite, remove), the embed loader over a static embedded tree (two roots), and multi loaders over 2-4 in-memory loaders with overlapping contents, AddLoaders mid-history and edits between Exists and Open; " +
-			"oracle: Exists agrees with the model, Exists implies Open returns exactly the stored bytes, directories never exist, multi answers from the first loader holding the path; non-trivial = history used >3 non-canonical spellings / overlapping contents / a generated tree; distinct by history shape",
+			"oracle: Exists agrees with the model, Exists implies Open returns exactly the stored bytes, directories never exist, multi answers from the first loader holding the path; non-trivial = history used >3 non-canonical spellings / overlapping contents / a generated tree; distinct by history shape Since waves 8/9: every read opens two handles on the path and reads them interleaved; OS loaders rooted at '.', './', './.' and 'sub/..' after changing into the directory.",
 		Assumptions: []string{"the harness may create temporary directories", "http.Dir and embed.FS behave as documented"},
 		NCases:      c19n,
 		RunCase:     c19run,
